@@ -199,7 +199,7 @@ func relGuard(name string, isL, isR func(ssa.Value) bool, rel token.Token) eng.N
 		// which constant does the wanted relation use?
 		var k int64
 		found := false
-		for _, cand := range []int64{c - 1, c + 1} {
+		for _, cand := range []int64{c + 1, c - 1, c} { // c itself: same constant, different operator (len > 0 fails ≡ len == 0)
 			if isR(ssa.NewConst(constant.MakeInt64(cand), rc.Type())) {
 				k, found = cand, true
 			}
